@@ -1,7 +1,7 @@
 (* Non-vacuity for C03: the "idx" wiring of the harness passes the well-formedness check for its
    unique indexes, and a concrete history exercises hand-over and swap of unique values. *)
 From Coq Require Import List NArith Bool.
-From Storage Require Import Base.Bytes Store.Model Store.WfSchema Store.WfSetIdx.
+From Storage Require Import Base.Bytes Store.Model Store.WfSchema Store.WfSetIdx Store.UniqueProofs Store.UniqueRejectProofs.
 Import ListNotations.
 Open Scope N_scope.
 
@@ -101,3 +101,63 @@ Example shist_index_final : sidx (run_txs idx_schema 8 st_empty shist) n_emp n_r
 Proof. vm_compute. reflexivity. Qed.
 Example shist_sets_final : get_set idx_schema (run_txs idx_schema 8 st_empty shist) n_emp [97] n_roles = [[112]; [114]].
 Proof. vm_compute. reflexivity. Qed.
+
+(* ---------------------------------------------------------------- uniqueness is enforced *)
+(* after the first three transactions of [hist]: a holds name z, b holds name x *)
+Definition st3 : state := run_txs idx_schema 8 st_empty (firstn 3 hist).
+
+(* creating c with name x is a duplicating operation in the sense of the theorems ... *)
+Example dup_create_is_dup_op : dup_op idx_schema n_emp n_name st3 (mk_emp [99] [120]).
+Proof.
+  split; [vm_compute; reflexivity|]. exists [120]. split; [|vm_compute; reflexivity].
+  split; [reflexivity|]. exists [98]. split; [intros H; discriminate|]. split; vm_compute; reflexivity.
+Qed.
+(* ... all the "no earlier check fails" premises of unique_duplicate_rejected_create hold for it
+   (name's unique index is registered first, so [before_unique] is empty) ... *)
+Example dup_create_premises :
+  nonempty [99] = true /\ present idx_schema st3 n_emp [99] = false /\ key_ok [99] = true /\
+  fire_cu idx_schema (mkOctx false []) [] n_emp Created [99] = Ok [mkEvent n_emp Created [99] false] /\
+  before_unique n_name (cons_of idx_schema n_emp) = [].
+Proof. vm_compute. repeat split; reflexivity. Qed.
+(* ... and the operation indeed answers EDuplicate *)
+Example dup_create_result :
+  run_op idx_schema 8 (mkOctx false []) (st3, []) (mk_emp [99] [120]) = Err EDuplicate.
+Proof. vm_compute. reflexivity. Qed.
+
+(* renaming b to z (held by a) through a field-restricted update is a duplicating operation, too *)
+Example dup_update_is_dup_op : dup_op idx_schema n_emp n_name st3 (up_name [98] [122]).
+Proof.
+  split; [vm_compute; reflexivity|]. exists [122]. split; [|vm_compute; reflexivity].
+  split; [reflexivity|]. exists [97]. split; [intros H; discriminate|]. split; vm_compute; reflexivity.
+Qed.
+Example dup_update_result :
+  run_op idx_schema 8 (mkOctx false []) (st3, []) (up_name [98] [122]) = Err EDuplicate.
+Proof. vm_compute. reflexivity. Qed.
+(* a transaction that first does valid work and then hits the duplicate leaves the state untouched *)
+Example dup_tx_changes_nothing :
+  match run_tx idx_schema 8 st3 (mkTx false [] [mk_emp [100] [119]; up_name [98] [122]; mk_emp [101] [118]] false) with
+  | (rs, committed, st', evs) => rs = [None; Some EDuplicate] /\ committed = false /\ evs = [] /\
+        uidx st' n_emp n_name = uidx st3 n_emp n_name /\ ids_of st' n_emp = ids_of st3 n_emp
+  end.
+Proof. vm_compute. repeat split; reflexivity. Qed.
+(* a hook registered BEFORE the unique index may fail first: on dept the fk-restrict hook precedes title's
+   unique index, on emp nick's index follows name's; a duplicate nick together with a duplicate name
+   reports the name *)
+Example dup_first_index_reports :
+  run_op idx_schema 8 (mkOctx false []) (st3, [])
+    (OCreate n_emp [99] false [(n_name, Some [120]); (n_nick, None); (n_boss, None); (n_deptf, Some [100])] [(n_roles, [])])
+  = Err EDuplicate.
+Proof. vm_compute. reflexivity. Qed.
+
+(* name is a non-nullable unique index: hypotheses of nonnull_unique_never_empty *)
+Example name_is_nonnull_unique : In (CUnique n_name false) (cons_of idx_schema n_emp).
+Proof. vm_compute. left. reflexivity. Qed.
+(* an empty name is refused (create and update) ... *)
+Example empty_name_rejected :
+  run_op idx_schema 8 (mkOctx false []) (st3, []) (mk_emp [99] []) = Err EOther /\
+  run_op idx_schema 8 (mkOctx false []) (st3, []) (up_name [98] []) = Err EOther.
+Proof. vm_compute. split; reflexivity. Qed.
+(* ... while the nullable nick index accepts nil values of several entities (no false duplicate) *)
+Example nil_nicks_coexist :
+  uidx st3 n_emp n_nick = [] /\ ids_of st3 n_emp = [[97]; [98]].
+Proof. vm_compute. split; reflexivity. Qed.
